@@ -31,7 +31,8 @@ RULE = (
     "observations of the records read equal those written (stream: observe.normalise(obs) equality; avro: the C19 comparison, "
     "floats to single precision, timestamps as instants).  Plus JSON / JSON lines / CSV chosen by extension, and junk inputs "
     "(empty, text, record repr text, random bytes, each codec around junk, each codec magic followed by junk, Avro magic "
-    "followed by junk) through every naming: must raise (any exception class) and yield zero records; for rdump stdin: no "
+    "followed by junk; non-stream input that contains the stream magic text at offset 0-5/7/10 instead of the header frame, "
+    "followed by text or by a genuine frame sequence, plain and under each codec) through every naming: must raise (any exception class) and yield zero records; for rdump stdin: no "
     "record in the output and a logged error or non-zero exit.  Non-trivial = a file with >= 1 record read back through >= 1 "
     "naming, or a junk input presented; distinct = distinct (kind, codec, container, sequence sub-seed / junk kind, naming)."
 )
@@ -41,8 +42,11 @@ ASSUMPTIONS = [
     "observations can be compared directly",
     "Avro sequences come from the C19 generator restricted to records the Avro mapping must accept (one descriptor per file)",
     "a path's last extension decides: 'x.avro.gz' is a gzip'd record stream; Avro under a codec is named avro://x.<codec>",
-    "a bare 'RECORDSTREAM\\n' header without frames is an empty stream today and is not generated as junk; junk never "
-    "contains the stream magic in its first 19 bytes (a damaged stream is C04's subject)",
+    "the exact 19-byte header frame without frames is an empty stream today and is not generated as junk; an input of fewer "
+    "than 19 bytes that ENDS with the magic text ('RECORDSTREAM\\n' alone, 'xx' + magic) is accepted as an empty stream "
+    "today too and is not generated; 6 arbitrary bytes + the magic at offset 6 (the format's position) is not generated "
+    "(accepted as a stream today); every generated bogus-header input is longer than 19 bytes; other junk never contains "
+    "the magic (a damaged stream is C04's subject)",
     "JSON / CSV under a codec extension are outside the matrix (jsonfile://x.json.gz is refused with TypeError today, "
     "csvfile://x.csv.gz writes plain text)",
     "for rdump the exit status is not demanded (record_stream() logs the reader's error and continues): refusal = no record in "
@@ -74,6 +78,13 @@ STREAM_TYPES = [t for t in gen.ALL_FIELD_TYPES
 JUNK_KINDS = ("empty", "text", "record-repr", "random", "random-long", "nul", "avro-magic+junk", "json-line", "csv-text") + tuple(
     "%s(%s)" % (c, inner) for c in ("gz", "bz2", "lz4", "zst") for inner in ("text", "random", "empty")) + tuple(
     "%s-magic+junk" % c for c in ("gz", "bz2", "lz4", "zst")) + tuple("%s-magic-only" % c for c in ("gz", "bz2", "lz4", "zst"))
+# non-stream input that CONTAINS the stream magic text near its start, but not as the header frame (4-byte length, 2-byte bin
+# header, magic at offset 6): the magic at offset k followed by text, by a genuine frame sequence right after the magic
+# ("+frames"), or by 6-k pad bytes and a genuine frame sequence, so that the frames start at offset 19 ("+pad+frames": a
+# reader that does not validate the header would decode records the input does not encode at that framing)
+BOGUS_TAILS = ("text", "frames", "pad+frames")
+BOGUS_KINDS = tuple("bogus-hdr@%d+%s" % (k, t) for k in (0, 1, 2, 3, 4, 5, 7, 10) for t in BOGUS_TAILS if not (k > 5 and t == "pad+frames"))
+JUNK_KINDS += BOGUS_KINDS + tuple("%s(bogus-hdr@%d+%s)" % (c, k, t) for c in ("gz", "bz2", "lz4", "zst") for k in (0, 2, 5) for t in BOGUS_TAILS)
 JUNK_VIAS = ("bytesio", "buffered", "raw", "neutral", "neutral-avro", "ext", "stdin")
 
 
@@ -457,8 +468,11 @@ def junk_bytes(kind, seed):
         return CODEC_MAGIC[kind.split("-")[0]] + rnd(rng.choice([1, 10, 500]))
     if kind.endswith("-magic-only"):
         return CODEC_MAGIC[kind.split("-")[0]]
+    if kind.startswith("bogus-hdr@"):
+        return bogus_header_input(kind, rng, rnd)
     codec, _, rest = kind.partition("(")
-    data = inner[rest.rstrip(")")]
+    rest = rest[:-1]
+    data = bogus_header_input(rest, rng, rnd) if rest.startswith("bogus-hdr@") else inner[rest]
     if codec == "gz":
         return gzip.compress(data)
     if codec == "bz2":
@@ -470,6 +484,39 @@ def junk_bytes(kind, seed):
     import zstandard
 
     return zstandard.ZstdCompressor().compress(data)
+
+
+def genuine_frames(rng):
+    """The frames (descriptor + records) of a real record stream, without its 19-byte header frame."""
+    from flow.record import RecordDescriptor, RecordStreamWriter
+
+    desc = RecordDescriptor("bogus/test", [("string", "s"), ("varint", "v")])
+    buf = io.BytesIO()
+    w = RecordStreamWriter(buf)
+    for i in range(rng.choice([1, 3, 40])):
+        w.write(desc.recordType(s="value %d" % i, v=rng.randint(-1000, 1000)))
+    w.flush()
+    data = buf.getvalue()
+    w.fp = None  # keep the writer from closing the buffer a second time
+    assert data[6:19] == STREAM_MAGIC and len(data) > 19
+    return data[19:]
+
+
+def bogus_header_input(kind, rng, rnd):
+    """'bogus-hdr@K+TAIL': K arbitrary bytes, the magic text, then TAIL.  Always longer than 19 bytes, never a valid header
+    frame (for K < 6 the magic does not sit at offset 6; for K > 6 neither)."""
+    k, _, tail = kind[len("bogus-hdr@"):].partition("+")
+    k = int(k)
+    lead = rnd(k) if (k and rng.random() < 0.5) else (b"#! text\n  "[:k] if k else b"")
+    head = lead + STREAM_MAGIC
+    if tail == "text":
+        data = head + b"this file merely starts with the words of the magic\nsecond line\n" * rng.choice([1, 50])
+    elif tail == "frames":
+        data = head + genuine_frames(rng)
+    else:
+        data = head + rnd(6 - k) + genuine_frames(rng)
+    assert len(data) > 19 and data[6:19] != STREAM_MAGIC
+    return data
 
 
 def execute_junk(ctx, case):
